@@ -308,6 +308,9 @@ def main():
                                'connection and a crash at every point of every transaction; the real code is '
                                'watched by a second connection at every progress callback and killed (os._exit in a '
                                'child process) at every progress callback'},
+            {'name': 'session', 'path': 'spec/WnSession.tla', 'serves_properties': [],
+             'kind_free_text': 'beyond the listed properties (bin/check X04): data directories and the pool of '
+                               'cached connections; TLC-simulated behaviours replayed in one process, every call judged'},
             {'name': 'download', 'path': 'spec/WnDownload.tla', 'serves_properties': [],
              'kind_free_text': 'beyond the listed properties (bin/check X02): wn.download() over cache, mirrors and '
                                'a scripted HTTP transport, TLC-simulated behaviours replayed, every step judged'},
